@@ -14,8 +14,8 @@
 #include <signal.h>
 #include <fcntl.h>
 namespace vlog {
-static int g_fd = -1;
-static std::string g_buf;
+inline int g_fd = -1;
+inline std::string g_buf;
 inline void flush() { size_t off = 0; while (off < g_buf.size()) { ssize_t w = ::write(g_fd, g_buf.data() + off, g_buf.size() - off); if (w <= 0) break; off += (size_t)w; } g_buf.clear(); }
 // events are buffered; a dying driver flushes what it has (sanitizer callback / fatal signal)
 static void on_fatal(int sig) { flush(); signal(sig, SIG_DFL); raise(sig); }
@@ -94,7 +94,9 @@ template <class F> int run(int argc, char **argv, F &&on_line) {
 #ifndef VLOG_OWN_HOOK_SINK
 extern "C" __attribute__((weak)) void igris_verif_point(const char *, const void *, long) {}
 #endif
-// called by the ASan / UBSan runtime before it reports and dies
+// called by the ASan / UBSan runtime before it reports and dies (defined once per driver)
+#ifndef VLOG_NO_SANITIZER_HOOKS
 extern "C" void __asan_on_error() { vlog::flush(); }
 extern "C" void __ubsan_on_report() { vlog::flush(); }
+#endif
 #endif
